@@ -88,7 +88,7 @@ prop("C02",
      note="Also decided: the generator passes parameter_reordering, strip_noops, record_branch_targets, count_temps (unit u9). BOUNDED STAND-IN (native enumeration, not a proof): ops::emit (op selection and operand word order for all 1116 operand-kind combinations) and build_threaded_code (limit placement, branch patching) -- Kani needs > 65 GB for the op_match! expansion. The other bytecode-generator passes (emit_block, dead_store_elim, allocate_temps, zeroing_move_detection: std hash collections, Kani does not finish, Verus rejects) are covered ONLY by a BOUNDED STAND-IN (unit n2_bc_passes: zeroing_move_detection on all sequences of <= 3 instructions over a small alphabet; translate end to end on a fixed pseudo-random sample of structured IR programs against bc_step / IR semantics) -- counted separately, never as proved. NOT decided: the optimiser in front (C01), the release-build tail-call dispatcher. A defect there is not detected by this check.")
 
 prop("C06",
-     units=[("kani", "u2_tape", None), ("kani", "u5_bcint_ops", None), ("kani", "u2b_bccontext", None), ("kani", "u6b_jit_shims", None), ("kani", "u6_jit", None), ("verus", "u11_window", None), ("native", "n2_bc_passes", None), ("native", "n5_checked_moves", None)],
+     units=[("kani", "u2_tape", None), ("kani", "u5_bcint_ops", None), ("kani", "u2b_bccontext", None), ("kani", "u6b_jit_shims", None), ("kani", "u6_jit", None), ("verus", "u11_window", None), ("kani", "u9_bc_passes", None), ("native", "n2_bc_passes", None), ("native", "n5_checked_moves", None)],
      level="model_checking",
      technique="Kani contract harnesses: Memory operations over the abstract view from arbitrary well-formed states; window invariant and in-window dereferences of every threaded op (buffer == window, so any stray access is out of bounds for CBMC)",
      design_ref="DESIGN.md section 4-U2/U5, 5-C06",
